@@ -120,6 +120,21 @@ def mk_bin(op, ty, a, b):
             return a
         if op in ("shl", "lshr", "mul", "udiv", "urem", "srem", "sdiv") and is_c(a) and a[2] == 0 and op not in ("mul",):
             return zero
+    if bits and op in ("lshr", "udiv") and is_c(b) and a[0] == "op" and a[1] == "mul":
+        k_ = (1 << b[2]) if (op == "lshr" and 0 < b[2] < bits) else (b[2] if op == "udiv" else 0)
+        for c_, x_ in ((a[3], a[4]), (a[4], a[3])):
+            if k_ > 1 and is_c(c_) and c_[2] % k_ == 0:
+                rx = _range(x_)
+                if rx is not None and rx[0] >= 0 and c_[2] * rx[1] < (1 << bits):
+                    return mk_bin("mul", ty, C(bits, c_[2] // k_), x_)    # (c * x) / k == (c / k) * x when c * x cannot wrap and k divides c
+    if bits and op == "lshr" and is_c(b) and 0 < b[2] < bits and a[0] == "op" and a[1] == "udiv" and is_c(a[4]) and (a[4][2] << b[2]) < (1 << bits):
+        return mk_bin("udiv", ty, a[3], C(bits, a[4][2] << b[2]))          # (x / c) >> k == x / (c * 2^k), unsigned
+    if bits and op == "udiv" and is_c(b) and b[2] > 0 and a[0] == "op" and a[1] == "udiv" and is_c(a[4]) and a[4][2] * b[2] < (1 << bits):
+        return mk_bin("udiv", ty, a[3], C(bits, a[4][2] * b[2]))           # (x / c1) / c2 == x / (c1 * c2), unsigned
+    if bits and op == "udiv" and is_c(b) and b[2] > 0 and a[0] == "op" and a[1] == "lshr" and is_c(a[4]) and (b[2] << a[4][2]) < (1 << bits):
+        return mk_bin("udiv", ty, a[3], C(bits, b[2] << a[4][2]))
+    if bits and op == "sdiv" and is_c(b) and sval(b) > 0 and a[0] == "op" and a[1] == "sdiv" and is_c(a[4]) and sval(a[4]) > 0 and sval(a[4]) * sval(b) < (1 << (bits - 1)):
+        return mk_bin("sdiv", ty, a[3], C(bits, sval(a[4]) * sval(b)))     # truncating division by positive constants composes
     if bits and bits > 1:
         if a[0] == "ite" and _leafconst(a) and (is_c(b) or _leafconst(b)):
             return mk_ite(a[1], mk_bin(op, ty, a[2], b), mk_bin(op, ty, a[3], b))
@@ -378,6 +393,21 @@ def mk_cast(op, ty, a, ty2):
         rr = _range(a[3])
         if rr is not None and -(1 << (b1 - 1)) <= (rr[0] << a[4][2]) and (rr[1] << a[4][2]) < (1 << (b1 - 1)):
             return mk_bin("shl", ty2, mk_cast("sext", ty, a[3], ty2), C(b2, a[4][2]))
+    if op == "sext" and b1 and b2 and a[0] == "op" and a[1] in ("add", "sub", "mul") and _range(a) is not None and _range(a[3]) is not None and _range(a[4]) is not None:
+        # the narrow operation cannot wrap on the assumed operand ranges: extending its result is operating on the extended operands
+        return mk_bin(a[1], ty2, mk_cast("sext", ty, a[3], ty2), mk_cast("sext", ty, a[4], ty2))
+    if op == "sext" and b1 and b2 and a[0] == "op" and a[1] == "sdiv" and is_c(a[4]) and sval(a[4]) not in (0, -1):
+        return mk_bin("sdiv", ty2, mk_cast("sext", ty, a[3], ty2), C(b2, sval(a[4])))      # a quotient never leaves the dividend's range
+    if op == "zext" and b1 and b2 and a[0] == "op" and a[1] in ("udiv", "lshr") and is_c(a[4]) and a[4][2] != 0:
+        return mk_bin(a[1], ty2, mk_cast("zext", ty, a[3], ty2), C(b2, a[4][2]))
+    if op == "zext" and b1 and b2 and a[0] == "op" and a[1] in ("add", "mul"):
+        r3, r4 = _range(a[3]), _range(a[4])
+        if r3 is not None and r4 is not None and r3[0] >= 0 and r4[0] >= 0:
+            top = r3[1] * r4[1] if a[1] == "mul" else r3[1] + r4[1]
+            if top < (1 << b1):
+                # non-negative operands whose sum / product stays below 2^width: no unsigned wrap, so zero-extending the
+                # result is operating on the zero-extended operands
+                return mk_bin(a[1], ty2, mk_cast("zext", ty, a[3], ty2), mk_cast("zext", ty, a[4], ty2))
     if op == "sext" and a in _NONNEG:
         op = "zext"
     if op in ("zext", "sext") and ty == "i1" and b2:
